@@ -10,6 +10,7 @@ import Sigverif.Model.Modifiers
 import Sigverif.Model.Support
 import Sigverif.Model.Eq
 import Sigverif.Model.Cleanup
+import Sigverif.Model.Chain
 import Sigverif.Model.Cache
 import Sigverif.Model.Visitor
 import Sigverif.Model.Grammar
@@ -652,6 +653,7 @@ def handle (line : String) : String :=
       let (p, rest') ← parseProg rest
       if rest' ≠ [] then none else
       some (showRes (discovered own (resolveWith tbl pm) (some ((truth p).map (FwdCall.toRec p)))))
+    | "chain" :: rest => SV.chainOp rest       -- the fallback chain of forged_signature (Model/Chain.lean)
     | "makeup" :: ex :: p :: [] => do
       let cs := makeUpCallsigs (← parseParams p) (← parseNats ex ".")
       let strs := cs.map (fun c => s!"{showNatList c.1}|{showNatList ((c.2.toArray.qsort (· < ·)).toList)}")
